@@ -316,7 +316,17 @@ pub fn cmd_version09(a: &Args) {
 		// the frame count is seen too (a writer that gets past the guard on a newer version may then panic on the
 		// columns: that is reported as well)
 		let nframes = if mm % 16 == 5 { 2 } else { 0 };
-		let beh = simple_beh(reg, &["single", "none", "ic", "none"], nframes, 0);
+		let mut beh = simple_beh(reg, &["single", "none", "ic", "none"], nframes, 0);
+		// every 8th (major, minor): a game without a Game End (a replay cut short), every 16th one without metadata
+		if mm % 8 == 3 {
+			beh.file_end = "none".into();
+			beh.hist.pop();
+			beh.steps.pop();
+			beh.fin.gend = 0;
+		}
+		if mm % 16 == 9 {
+			beh.meta = "none".into();
+		}
 		let o = GenOpts::new(seed ^ mm as u64, base_ver);
 		let built = gen::build_beh(&db, &beh, &o);
 		let patches: Vec<u8> = if full { (0..=255).collect() } else { vec![0, 1, ((seed as usize + mm) % 254 + 2) as u8, 255] };
@@ -332,11 +342,29 @@ pub fn cmd_version09(a: &Args) {
 					}
 				};
 				g.start.slippi.version = slippi::Version(maj, min, p);
-				let res = if writer == "slp" { real::write_slp(&g).is_ok_kind() } else { real::write_slpp(g, Comp::None).is_ok_kind() };
+				// each writer is called twice in a row with the same game (a retry, a batch): both answers count;
+				// the .slpp writer with its options given and with none
+				let res = if writer == "slp" {
+					let r1 = real::write_slp(&g).is_ok_kind();
+					let r2 = real::write_slp(&g).is_ok_kind();
+					if r1 != r2 { "differs" } else { r1 }
+				} else {
+					let g_again = match real::read_slp(&built.bytes, false, false) {
+						Outcome::Ok(mut g2) => {
+							g2.start.slippi.version = slippi::Version(maj, min, p);
+							g2
+						}
+						_ => return,
+					};
+					let r1 = if (mm + p as usize) % 2 == 0 { real::write_slpp(g, Comp::None).is_ok_kind() } else { real::write_slpp_noopts(g).is_ok_kind() };
+					let r2 = if (mm + p as usize) % 2 == 0 { real::write_slpp_noopts(g_again).is_ok_kind() } else { real::write_slpp(g_again, Comp::all()[p as usize % 3]).is_ok_kind() };
+					if r1 != r2 { "differs" } else { r1 }
+				};
 				let want_err = refused(v);
 				let bad = match (res, want_err) {
 					("err", true) | ("ok", false) => None,
 					("ok", true) => Some(("mismatch", "accepted".to_string())),
+					("differs", _) => Some(("mismatch", "answered differently by two calls in a row (options given / not given)".to_string())),
 					("err", false) => Some(("mismatch", "refused".to_string())),
 					(k, _) => Some(("panic", k.to_string())),
 				};
